@@ -150,6 +150,17 @@ def regen_trans():
             f.write(text)
         log('Gen/FactsTransPlan.v changed (%s)' % note)
     TRANS_STATE['applicable'], TRANS_STATE['note'] = ok, note
+    text2, ok2, note2 = rs2coq.generate_relpath(REPO)
+    dst2 = os.path.join(COQ, 'theories', 'Gen', 'FactsTransPath.v')
+    try:
+        old2 = open(dst2).read()
+    except OSError:
+        old2 = None
+    if old2 != text2:
+        with open(dst2, 'w') as f:
+            f.write(text2)
+        log('Gen/FactsTransPath.v changed (%s)' % note2)
+    TRANS_STATE['path_applicable'], TRANS_STATE['path_note'] = ok2, note2
     return ok, note
 
 
@@ -411,6 +422,40 @@ class Run:
         return not (hits or bad or missing)
 
     TRANS_THEOREMS = ['trans_needs_delete', 'trans_needs_copy_total', 'trans_process_src', 'trans_process_dest', 'trans_plan']
+    TRANS_PATH_THEOREMS = ['trans_same_or_inside_value', 'trans_same_or_inside_total', 'trans_same_or_inside']
+
+    def check_path_translation(self):
+        """RootRelativePath::is_same_or_inside as regenerated from the source text of root_relative_path.rs is the component-wise prefix
+        test of the model and never panics on well-formed UTF-8 (Proofs/TransPathEq.v)."""
+        if TRANS_STATE.get('path_applicable') is None:
+            regen_trans()
+        vo = 'theories/Proofs/TransPathEq.vo'
+        ok, out = build_coq([vo])
+        info = {'applicable': TRANS_STATE.get('path_applicable'), 'note': TRANS_STATE.get('path_note'), 'theorems': {}}
+        self.extra['translator_relpath'] = info
+        self.count('path-translator-applicable' if info['applicable'] else 'path-translator-fallback')
+        if not ok:
+            m = re.search(r'File "([^"]+)", line (\d+).*?\nError:?(.*?)(?:\n\n|\Z)', out, re.S)
+            where = ('%s:%s %s' % (m.group(1), m.group(2), ' '.join(m.group(3).split())[:300])) if m else out[-600:]
+            self.broke('proof', 'TransPathEq', 'the Gallina regenerated from src/root_relative_path.rs (is_same_or_inside) is no longer provably the '
+                       'component-wise prefix test of the model: ' + where)
+            return False
+        hits = audit_sources(coq_sources_in_cone(vo))
+        if hits:
+            self.broke('proof', 'TransPathEq', 'forbidden tokens in the development: ' + '; '.join(hits[:5]))
+            return False
+        try:
+            ass = print_assumptions('TransPathEq', self.TRANS_PATH_THEOREMS, pkg='Proofs')
+        except BrokenTie as e:
+            self.broke('proof', 'TransPathEq', str(e))
+            return False
+        bad = {t: a for t, a in ass.items() if any(x not in ALLOWED_AXIOMS for x in a)}
+        missing = [t for t in self.TRANS_PATH_THEOREMS if t not in ass]
+        info['theorems'] = {t: ('closed' if not ass.get(t) else 'axioms: ' + ', '.join(ass[t])) for t in ass}
+        if bad or missing:
+            self.broke('proof', 'TransPathEq', 'axioms %r missing %r' % (bad, missing))
+            return False
+        return True
 
     def check_translation(self):
         """The Gallina regenerated from the source text of boss_sync.rs (needs_delete, needs_copy, process_src_entry,
